@@ -144,7 +144,11 @@ def check_node_lists(run, db):
         ru, _ = ret_canon(db, us, {0: 'size'})
         if ru != ['(($size / this.node_size_) * this.node_size_)'] and ru != ['(this.node_size_ * ($size / this.node_size_))']:
             probs.append('usable_size is %s, insert links size / node_size_ nodes of node_size_ bytes' % ru)
-        cnt = [w for s in fwd.summarize(ii, db=db, roles={1: 'size'}, no_forward=True, inline_pred=lambda a, c, t: False) for w in s.writes if w[0] == 'this.capacity_']
+        # counted at the public insert(mem, size), with the private helper seen through: it may take the bytes or the node count
+        ins = fns.get(('insert', 2))
+        tgt = ins or ii
+        cnt = [w for s in fwd.summarize(tgt, db=db, roles={1: 'size'}, no_forward=True,
+                                        inline_pred=lambda a, c, t: c.short == 'insert_impl' and c.cls == a.cls) for w in s.writes if w[0] == 'this.capacity_']
         if not cnt or not all('($size / this.node_size_)' in w[1] for w in cnt):
             probs.append('insert_impl does not count size / node_size_ nodes')
         # node_size_ is max(node_size, min_element_size) in the constructor and in min_block_size
@@ -374,6 +378,7 @@ def run(run):
     run.rule('R-TERM.offset', 'arena header offset: push/top/pop agree; min_block_size adds exactly it', floor=6)
     run.rule('R-MAXIMA', 'guards compare against the advertised maxima; maxima bottom out in the bounding quantity', floor=20)
     run.rule('R-COUNTER', 'capacity getters are the guard terms', floor=10)
+    run.rule('R-MAXIMA.bound', 'a request above what the allocator advertises is refused: guard == bytes taken (shared rule R-BOUND of C01)', floor=10)
     run.explanation = ('Numeric truth of the formulas on every (size, count) is not evaluated; they are decided up to term equality under enumerated '
                        'rewrite rules (round-up idioms, max idioms, commutativity).')
     for cfg in common.configs(run):
@@ -386,3 +391,7 @@ def run(run):
         check_offsets(run, db)
         check_maxima(run, db)
         check_counters(run, db)
+        # what an allocator advertises as capacity is an upper bound for what it serves: the guard of every bump allocation bounds
+        # exactly the bytes it then takes, also on the path that grows (shared rule R-BOUND of C01)
+        from rules import c01, c05
+        c01.check_bound(c05._Renamed(run, 'R-MAXIMA.bound'), db)
